@@ -367,6 +367,14 @@ fn handle_established(
             }
         }
 
+        // A segment that occupies sequence space is always answered,
+        // accepted or not: a retransmitted SYN-ACK, FIN or data we
+        // already hold means our ACK was lost, and the peer would
+        // otherwise retransmit until it gives up.
+        if s.flags.syn || s.flags.fin || !s.payload.is_empty() {
+            send_ack = true;
+        }
+
         if wake_write {
             st.wake_write();
         }
